@@ -7,7 +7,7 @@ from harness.core import enc, dec, guarded
 PID = "C02"
 ENV = {"BASES_DATA": os.path.join(tlc.SPEC_DIR, "data", "bases.json"),
        "URL_DATA": os.path.join(tlc.SPEC_DIR, "data", "urlgen.json")}
-NBASES = 29
+NBASES = 30
 ALLB = "{" + ",".join(str(i) for i in range(1, NBASES + 1)) + "}"
 
 
